@@ -1536,6 +1536,13 @@ private:
                                 return val;
                             }
                             auto x = binary::big_to_native<uint64_t>(buf, sizeof(buf));
+                            if (x > static_cast<uint64_t>((std::numeric_limits<int64_t>::max)()))
+                            {
+                                // -1 - x is below the int64_t range
+                                ec = cbor_errc::number_too_large;
+                                more_ = false;
+                                return 0;
+                            }
                             val = static_cast<int64_t>(-1)- static_cast<int64_t>(x);
                             break;
                         }
